@@ -22,6 +22,7 @@ import QV.Proofs.WriterBridge
 import QV.Proofs.WriterRefine
 import QV.Proofs.WriterHeader
 import QV.Proofs.WriterShapeRun
+import QV.Proofs.WriterContentDecode
 
 namespace QV.C12
 open QV QV.Writer QV.ServerSafety
@@ -251,9 +252,10 @@ theorem C12_component_table_is_rfc_layout (cls ty : Nat) :
     appended reads back, on every later message, as the owner given (same labels up to ASCII case;
     octet for octet in `CasePreserving` and `Disabled` mode), TYPE, CLASS, TTL as given, and an
     RDLENGTH that is the number of octets written after it.
-  Not proved for these two modes: that the names *inside RDATA* read back (C13 proves each of them
-  is written validly and `C13_written_name_round_trip` that each reads back on its own), and the
-  assembly of the two parts into one statement about the abstract message. -/
+  * **Content, all records of a session** (`C12_records_are_the_calls_all_modes`, below): the decoded
+    questions and records are, section by section and in order, those of the calls that succeeded.
+  Not proved for these two modes: that the RDATA reads back (C13 proves each name in it is written
+  validly and `C13_written_name_round_trip` that each reads back on its own). -/
 
 theorem C12_finished_message_decodes_all_modes (macFn : Tsig → List UInt8 → List UInt8) (hmac : MacLenOK macFn)
     (buf : Bytes) (limit : Nat) (s0 : State) (hnew : Writer.new buf limit = .ok s0) (mode : CMode)
@@ -293,5 +295,35 @@ theorem C12_question_round_trip_all_modes (qn : WName) (qt qc : Nat) (s s' : Sta
       w.map lowerU8 = qn.wire.map lowerU8 ∧ (s.mode ≠ .standard → w = qn.wire) ∧
       be16 msg (s.cursor + k) = qt ∧ be16 msg (s.cursor + k + 2) = qc :=
   addQuestionBody_round_trip qn qt qc s s' hw hwf hqt hqc h msg hmsg
+
+
+/-! ### every decoded question and record is the one given, in order (every mode)
+
+  For every session from a fresh writer, in any initial mode, with any mode changes: the finished
+  message (if at most 65535 octets) decodes, and the decoded questions / answer / authority /
+  additional records are — one for one and in order — the questions and records of the calls that
+  succeeded (`bodyRun`; `clear_rrs` removes the records, a failed call adds nothing), followed in
+  the additional section by the OPT record (payload size as CLASS, extended RCODE/version as TTL)
+  and the TSIG record (key name, ANY, TTL 0). "Is the one given" (`RMatch`, `QMatch`): the decoded
+  name, decompressed by the independent decoder, equals the name given up to ASCII case — octet
+  for octet if the call was made in `CasePreserving` or `Disabled` mode —, and TYPE, CLASS, TTL are
+  the values given. -/
+theorem C12_records_are_the_calls_all_modes (macFn : Tsig → List UInt8 → List UInt8) (hmac : MacLenOK macFn)
+    (buf : Bytes) (limit : Nat) (s0 : State) (hnew : Writer.new buf limit = .ok s0) (mode : CMode)
+    (ops : List Op) (hr : Respects { w := { s0 with mode := mode } } ops) :
+    let out := run { w := { s0 with mode := mode } } ops
+    let given := bodyRun {} ops out.2
+    ∃ m mac, finish out.1.w macFn = .ok (m, mac) ∧ (m.size ≤ 65535 →
+      ∃ (d : Spec.DMsg) (qs : List QItC) (ian ins iar : List RItC), Spec.specDecodeMsg m = some d ∧
+        qs.map (·.q) = given.qs ∧ ian.map (·.r) = given.an ∧ ins.map (·.r) = given.ns ∧
+        iar.map (·.r) = given.ar ++ optRecs' out.1.w.edns ++ tsigRecs out.1.w.tsig mac ∧
+        All2 QMatch qs d.questions ∧ All2 RMatch ian d.an ∧ All2 RMatch ins d.ns ∧ All2 RMatch iar d.ar) := by
+  intro out given
+  have hI0 : I { s0 with mode := mode } := (safe_setMode mode s0 (new_i buf limit s0 hnew)).2
+  have hL0 : CLay { s0 with mode := mode } {} := clay_setMode mode s0 (clay_new buf limit s0 hnew)
+  have hI := (run_I { w := { s0 with mode := mode } } ops hI0 hr).2
+  have hL := clay_run { w := { s0 with mode := mode } } ops {} hI0 hL0 hr
+  obtain ⟨m, mac, hf⟩ := finish_ok macFn hmac out.1.w hI
+  exact ⟨m, mac, hf, fun hsz => finish_decodes_content macFn out.1.w given hI hL m mac hf hsz⟩
 
 end QV.C12
